@@ -24,13 +24,14 @@ import (
 // deterministic BTC material (regtest): 2-of-3 redeem script, its P2SH / P2WSH lock scripts, a payee
 
 type vault struct {
-	Keys   []*btcec.PrivateKey
-	Redeem []byte
-	RK     []byte // hash160(redeem) = utxo key
-	P2SH   []byte
-	P2WSH  []byte
-	Payee  string // P2PKH regtest address (string form, as MakeTransaction args carry it)
-	PayeeS []byte // its pkScript
+	Keys      []*btcec.PrivateKey
+	Redeem    []byte
+	RK        []byte // hash160(redeem) = utxo key
+	P2SH      []byte
+	P2WSH     []byte
+	Payee     string // P2PKH regtest address (string form, as MakeTransaction args carry it)
+	VaultAddr string // the vault's own P2WSH address (a withdrawal to it returns payment and change to the vault)
+	PayeeS    []byte // its pkScript
 }
 
 func newVault() *vault {
@@ -56,6 +57,7 @@ func newVault() *vault {
 	must(err)
 	v.P2WSH, err = txscript.PayToAddrScript(a2)
 	must(err)
+	v.VaultAddr = a2.EncodeAddress()
 	ps := sha256.Sum256([]byte("c26-payee"))
 	_, ppub := btcec.PrivKeyFromBytes(btcec.S256(), ps[:])
 	pa, err := btcutil.NewAddressPubKeyHash(btcutil.Hash160(ppub.SerializeCompressed()), net)
@@ -88,7 +90,8 @@ func (v *vault) outs(amount uint64) []*wire.TxOut {
 
 type coin struct {
 	V    uint64 `json:"value"`
-	Kind string `json:"script"` // "P2SH" | "P2WSH"
+	Kind string `json:"script"`             // "P2SH" | "P2WSH"
+	Op   string `json:"outpoint,omitempty"` // selector level: "<txid tag>:<index>" (same tag = outputs of one BTC transaction)
 }
 
 type selCase struct {
@@ -125,14 +128,27 @@ func opHash(pos int) []byte {
 	return h
 }
 
-func mkUtxos(v *vault, coins []coin) []*btc.Utxo {
+// mkUtxos: variant 0 = every UTXO from its own transaction; 1 = positions (0,1), (2,3), ... are sibling outputs (index 0/1) of one
+// transaction; 2 = all are outputs 0..n-1 of ONE transaction. Less() ignores the index, so equal-valued siblings compare equal.
+func mkUtxos(v *vault, coins []coin, variant int) []*btc.Utxo {
 	out := make([]*btc.Utxo, len(coins))
-	for i, c := range coins {
+	for i := range coins {
+		c := &coins[i]
 		k := byte('S')
 		if c.Kind == "P2WSH" {
 			k = 'W'
 		}
-		out[i] = &btc.Utxo{Op: &btc.OutPoint{Hash: opHash(i), Index: 0}, AtHeight: 1, Value: c.V, ScriptPubkey: v.script(k)}
+		tx, idx := i, 0
+		switch variant {
+		case 1:
+			tx, idx = i-i%2, 1-i%2
+		case 2:
+			tx, idx = 0, len(coins)-1-i
+		}
+		// indexes fall with the position: the descending production sort keeps the enumerated order whether Less treats equal-valued
+		// siblings as equal (stable for these sizes) or breaks the tie by index
+		c.Op = fmt.Sprintf("T%d:%d", tx, idx)
+		out[i] = &btc.Utxo{Op: &btc.OutPoint{Hash: opHash(tx), Index: uint32(idx)}, AtHeight: 1, Value: c.V, ScriptPubkey: v.script(k)}
 	}
 	return out
 }
@@ -282,6 +298,7 @@ func checkSelection(st *selStats, strategy string, c selCase, rank [3]int, cs *b
 
 func selectorLevel(r *ev.Run, v *vault) map[string]any {
 	maxN := r.QT(5, 6)
+	sibMaxN := r.QT(4, 6)              // sibling-outpoint variants (same txid, different index) for sequences up to this size
 	targets := []uint64{15000, 100000} // small: one P2SH input at fee rate 50 costs more than the payment; mid
 	feeRates := []uint64{1, 50}
 	type job struct {
@@ -332,7 +349,12 @@ func selectorLevel(r *ev.Run, v *vault) map[string]any {
 				j := jobs[next]
 				next++
 				mu.Unlock()
-				for kinds := 0; kinds < 1<<j.n; kinds++ {
+				nv := 1
+				if j.n >= 2 && j.n <= sibMaxN {
+					nv = 3
+				}
+				for kv := 0; kv < nv<<j.n; kv++ {
+					kinds, variant := kv&(1<<j.n-1), kv>>j.n
 					for ti, t := range targets {
 						alpha := valueAlphabet(t)
 						coins := make([]coin, j.n)
@@ -343,9 +365,13 @@ func selectorLevel(r *ev.Run, v *vault) map[string]any {
 								coins[p].Kind = "P2WSH"
 							}
 						}
-						given := mkUtxos(v, coins)
-						// production sort (chooseUtxos) on a rotated copy must reproduce the intended order
+						given := mkUtxos(v, coins, variant)
+						// production sort (chooseUtxos) on a rotated copy must reproduce the intended order (siblings of equal value
+						// compare equal under Less, their order is the storage order: no rotation then)
 						rot := append(append([]*btc.Utxo{}, given[j.n/2:]...), given[:j.n/2]...)
+						if variant != 0 {
+							rot = append([]*btc.Utxo{}, given...)
+						}
 						sorted := &btc.Utxos{Utxos: rot}
 						sort.Sort(sort.Reverse(sorted))
 						for p := range given {
@@ -356,7 +382,7 @@ func selectorLevel(r *ev.Run, v *vault) map[string]any {
 						for mi, mc := range []uint64{2000, t / 2, t * 5 / 2} {
 							for fi, fr := range feeRates {
 								c := selCase{Coins: coins, Target: t, MC: mc, FeeRate: fr, M: 2, N: 3}
-								rank := [3]int{j.n, j.serial, kinds<<8 | ti<<6 | mi<<3 | fi}
+								rank := [3]int{j.n, j.serial, variant<<16 | kinds<<8 | ti<<6 | mi<<3 | fi}
 								var selectNone bool
 								for _, s := range strategies {
 									us := &btc.Utxos{Utxos: append([]*btc.Utxo{}, given...)}
@@ -459,8 +485,8 @@ func selectorLevel(r *ev.Run, v *vault) map[string]any {
 	}
 	// directed: the repro recorded in DESIGN section 6 (F2), through Select as chooseUtxos configures it
 	{
-		coins := []coin{{140000, "P2SH"}, {140000, "P2SH"}, {140000, "P2SH"}, {130000, "P2SH"}}
-		given := mkUtxos(v, coins)
+		coins := []coin{{V: 140000, Kind: "P2SH"}, {V: 140000, Kind: "P2SH"}, {V: 140000, Kind: "P2SH"}, {V: 130000, Kind: "P2SH"}}
+		given := mkUtxos(v, coins, 0)
 		cs := btc.VerifC26Selector(&btc.Utxos{Utxos: given}, 100000, 250000, 1, v.outs(100000), 2, 3)
 		res, sum, fee := cs.Select()
 		var real uint64
@@ -474,10 +500,14 @@ func selectorLevel(r *ev.Run, v *vault) map[string]any {
 	}
 	seqs := 0
 	for n := 1; n <= maxN; n++ {
-		seqs += int(completedN[n]) << n
+		k := 1
+		if n >= 2 && n <= sibMaxN {
+			k = 3
+		}
+		seqs += k * int(completedN[n]) << n
 	}
 	return map[string]any{
-		"selector_max_utxos": maxN, "selector_sorted_sequences_with_kinds": seqs, "selector_configs_per_sequence": 12,
+		"selector_max_utxos": maxN, "selector_sibling_outpoint_variants_up_to_size": sibMaxN, "selector_sorted_sequences_with_kinds": seqs, "selector_configs_per_sequence": 12,
 		"selector_calls": tot.evals, "selector_select_none_but_a_feasible_subset_exists": tot.unsolved,
 		"selector_select_none_and_infeasible": tot.noneInfeasible,
 	}
